@@ -9,9 +9,11 @@ import (
 	"io"
 	"log"
 	"os"
+	"runtime"
 	"sort"
 	"sync"
 	"sync/atomic"
+	"time"
 )
 
 // Graph is a TLC state graph cut into root-to-edge paths by tools/vlib.py.
@@ -179,6 +181,36 @@ type Trace struct {
 	f      *os.File
 	ticket int64
 	N      int
+	last   int64 // unix nanoseconds of the last Log call
+}
+
+// Watchdog makes non-termination of the code under test a verdict instead of
+// a hang of the check: if no event is logged for d (a driver logs an event for
+// every operation it performs, and its operations are not supposed to block),
+// a `stuck` event with a goroutine dump is appended, the log is flushed and the
+// process exits with status 3. The check re-runs the scenario alone and
+// reports a reproducible `stuck` as a call of the real code that never returns.
+func (t *Trace) Watchdog(d time.Duration) {
+	atomic.StoreInt64(&t.last, time.Now().UnixNano())
+	go func() {
+		for {
+			time.Sleep(time.Second)
+			if time.Since(time.Unix(0, atomic.LoadInt64(&t.last))) > d {
+				buf := make([]byte, 1<<16)
+				n := runtime.Stack(buf, true)
+				dump := string(buf[:n])
+				if len(dump) > 6000 {
+					dump = dump[:6000]
+				}
+				b, _ := json.Marshal(map[string]interface{}{"ev": "stuck", "silent_s": int(d / time.Second), "goroutines": dump})
+				// the logger's mutex may be held by the stuck goroutine's caller: do not take it
+				t.w.Write(b)
+				t.w.WriteByte('\n')
+				t.w.Flush()
+				os.Exit(3)
+			}
+		}
+	}()
 }
 
 func NewTrace(path string) *Trace {
@@ -202,6 +234,7 @@ func (t *Trace) Log(ev map[string]interface{}) {
 	t.w.Write(b)
 	t.w.WriteByte('\n')
 	t.N++
+	atomic.StoreInt64(&t.last, time.Now().UnixNano())
 	t.mu.Unlock()
 }
 
